@@ -1708,6 +1708,24 @@ func (ex *Exec) valEq(st *State, a, b Val, t types.Type) *Term {
 			}
 			return ex.valEq(st, x.Payload, y.Payload, x.Conc)
 		}
+		if (x.Sym != nil && y.Conc != nil) || (x.Conc != nil && y.Sym != nil) {
+			// an interface value of unknown content compared with a boxed concrete value (switch staticType { case
+			// PrimitiveStaticTypeInt8: ... }): same dynamic type and equal payload of that type
+			s, c := x, y
+			if x.Conc != nil {
+				s, c = y, x
+			}
+			if _, isPtr := c.Conc.Underlying().(*types.Pointer); !isPtr {
+				pl := ex.payload(st, s, c.Conc)
+				if _, opaque := pl.(OpaqueV); !opaque {
+					return And(Eq(s.Kind, IntC(int64(ex.P.TypeTag(c.Conc)))), ex.valEq(st, pl, c.Payload, c.Conc))
+				}
+			} else if pv, ok := c.Payload.(PtrV); ok && pv.K == PCell && len(pv.Path) == 0 {
+				// a boxed pointer to a modelled object (switch targetType { case SignedFixedPointType: ... }): the unknown
+				// value is that pointer iff it has the pointer's type and the object's identity (one constant per object)
+				return And(Eq(s.Kind, IntC(int64(ex.P.TypeTag(c.Conc)))), Eq(ex.ifaceGhost(st, s, "identity"), IntC(int64(pv.Cell.id)-7000000)))
+			}
+		}
 		if x.Sym != nil && y.Sym != nil {
 			// two interface values of unknown content (err == rlp.ErrEmptyInput): the same value is equal to itself;
 			// otherwise equal exactly when the dynamic types and the ghost attribute "identity" agree (a per-value
